@@ -4,7 +4,7 @@
 set -u
 cd "$(dirname "$0")/.."
 pid=$1; br=${2:-wt-$pid}
-flock .work/check.lock bash -c "git merge --no-edit $br 2>&1 | tail -2 && python3 tools/mklake.py && python3 tools/mkmanifest.py" || { echo "MERGE FAILED"; exit 2; }
+flock .work/check.lock bash -c "set -o pipefail; git merge --no-edit $br 2>&1 | tail -3 && python3 tools/mklake.py && python3 tools/mkmanifest.py" || { echo "MERGE FAILED"; git merge --abort 2>/dev/null; exit 2; }
 ./check "$pid" > .work/merge4-$pid.log 2>&1; rc=$?
 grep -E "^(OK|VIOLATION)" .work/merge4-$pid.log
 echo "check rc=$rc"
